@@ -181,3 +181,77 @@ package biscuit
 //@ assumes forall j int :: { opts[j] } 0 <= j && j < len(opts) ==> opts[j] != nil
 //@ requires a != nil
 //@ modifies a.baseWorld
+
+// ---------------------------------------------------------------------------
+// converters, wire -> token (C07 C10): total on every decoded message
+
+//@ func protoIDToTokenIDV2(input *pb.TermV2) (res *datalog.Term, err error)
+//@ serves C07 C10
+//@ requires pbTermWF(input)
+//@ modifies nothing
+//@ loop 0 invariant fresh(arr(datalogSet)) && setWF(datalogSet) && (forall j int :: { elts[j] } 0 <= j && j < len(elts) ==> pbTermShallowWF(elts[j]))
+//@ ensures err == nil ==> res != nil && fresh(res) && termWF(*res)
+//@ ensures err != nil ==> res == nil
+
+//@ func protoPredicateToTokenPredicateV2(input *pb.PredicateV2) (res *datalog.Predicate, err error)
+//@ serves C07 C10
+//@ requires pbPredWF(input)
+//@ modifies nothing
+//@ loop 0 invariant len(Terms) == len(input.Terms) && fresh(arr(Terms)) && (forall j int :: { Terms[j] } 0 <= j && j < #i ==> termWF(Terms[j]))
+//@ ensures err == nil ==> res != nil && fresh(res) && predWF(*res)
+//@ ensures err != nil ==> res == nil
+
+//@ func protoFactToTokenFactV2(input *pb.FactV2) (res *datalog.Fact, err error)
+//@ serves C07 C10
+//@ requires pbFactWF(input)
+//@ modifies nothing
+//@ ensures err == nil ==> res != nil && fresh(res) && predWF(res.Predicate)
+//@ ensures err != nil ==> res == nil
+
+//@ func protoExprUnaryToTokenExprUnary(op *pb.OpUnary) (res datalog.UnaryOpFunc, err error)
+//@ serves C07 C10
+//@ requires op != nil && op.Kind != nil
+//@ modifies nothing
+//@ ensures (err == nil) == (res != nil)
+
+//@ func protoExprBinaryToTokenExprBinary(op *pb.OpBinary) (res datalog.BinaryOpFunc, err error)
+//@ serves C07 C10
+//@ requires op != nil && op.Kind != nil
+//@ modifies nothing
+//@ ensures (err == nil) == (res != nil)
+
+//@ func protoExpressionToTokenExpressionV2(input *pb.ExpressionV2) (res datalog.Expression, err error)
+//@ serves C07 C10
+//@ requires pbExprWF(input)
+//@ modifies nothing
+//@ loop 0 invariant len(expr) == len(input.Ops) && fresh(arr(expr)) && (forall j int :: { expr[j] } 0 <= j && j < #i ==> opWF(expr[j]))
+//@ ensures err == nil ==> exprWF(res) && fresh(arr(res))
+//@ ensures err != nil ==> res == nil
+
+//@ func protoRuleToTokenRuleV2(input *pb.RuleV2) (res *datalog.Rule, err error)
+//@ serves C07 C10
+//@ requires pbRuleWF(input)
+//@ modifies nothing
+//@ loop 0 invariant len(body) == len(input.Body) && fresh(arr(body)) && (forall j int :: { body[j] } 0 <= j && j < #i ==> predWF(body[j]))
+//@ loop 1 invariant len(expressions) == len(input.Expressions) && fresh(arr(expressions)) && predsWF(body) && (forall j int :: { expressions[j] } 0 <= j && j < #i ==> exprWF(expressions[j]))
+//@ ensures err == nil ==> res != nil && fresh(res) && ruleWF(*res)
+//@ ensures err != nil ==> res == nil
+
+//@ func protoCheckToTokenCheckV2(input *pb.CheckV2) (res *datalog.Check, err error)
+//@ serves C07 C10
+//@ requires pbCheckWF(input)
+//@ modifies nothing
+//@ loop 0 invariant len(queries) == len(input.Queries) && fresh(arr(queries)) && (forall j int :: { queries[j] } 0 <= j && j < #i ==> ruleWF(queries[j]))
+//@ ensures err == nil ==> res != nil && fresh(res) && checkWF(*res)
+//@ ensures err != nil ==> res == nil
+
+//@ func protoBlockToTokenBlock(input *pb.Block) (res *Block, err error)
+//@ serves C07 C10
+//@ requires pbBlockWF(input)
+//@ modifies nothing
+//@ loop 0 invariant forall j int :: { facts[j] } 0 <= j && j < #i ==> predWF(facts[j].Predicate)
+//@ loop 1 invariant factsWF(facts) && (forall j int :: { rules[j] } 0 <= j && j < #i ==> ruleWF(rules[j]))
+//@ loop 2 invariant factsWF(facts) && rulesWF(rules) && (forall j int :: { checks[j] } 0 <= j && j < #i ==> checkWF(checks[j]))
+//@ ensures version_gate[C07]: err == nil ==> input.Version != nil && *input.Version == 3 && res.version == 3
+//@ ensures err == nil ==> res != nil && fresh(res) && blockWF(res)
+//@ ensures err != nil ==> res == nil
